@@ -17,7 +17,7 @@ Definition add_block (st : list (hash * list hash)) (h : hash) (links : list has
   if existsb (fun b => N.eqb (fst b) h) st then st else st ++ [(h, links)].
 
 Inductive op :=
-| ONew (id key : N) (s : sortfn) (deny : list N)         (* a new empty replica, index = length s_logs *)
+| ONew (id key : N) (s : sortfn) (deny : list N) (t0 : Z) (* a new empty replica, index = length s_logs; t0 = time of the clock it is opened with *)
 | OAppend (r : nat) (payload : N) (pc : Z) (h : hash)    (* h: the CID the implementation produced *)
 | OJoin (r src : nat) (size : Z)
 | OSetIdentity (r : nat) (key : N)
@@ -54,8 +54,8 @@ Definition set_time (l : log) (t : Z) : log :=
 
 Definition step (s : sys) (o : op) : sys * opres :=
   match o with
-  | ONew id key sf deny =>
-      (mkSys (s_logs s ++ [new_log id key sf deny]) (s_univ s) (s_store s), ResNone RcOk)
+  | ONew id key sf deny t0 =>
+      (mkSys (s_logs s ++ [new_log id key sf deny t0]) (s_univ s) (s_store s), ResNone RcOk)
   | OAppend r payload pc h =>
       match nth_error (s_logs s) r with
       | None => (s, ResNone RcBadIndex)
